@@ -3,6 +3,7 @@
 (* Behaviour emitter for Discovery: the same actions plus a history        *)
 (* variable.  Every step is recorded with what the replayer needs:         *)
 (*   call   - the caller starts Subscribe / Unsubscribe of a service       *)
+(*   dep    - the dependency stream delivers a message (added, removed)    *)
 (*   nsOK / nsFail - the answer to the pending stream creation             *)
 (*   fail   - the established stream breaks                                *)
 (*   silent - the established stream goes silent (no error)                *)
@@ -33,7 +34,7 @@ VARIABLES hist, finished
 
 gvars == <<vars, hist, finished>>
 
-Obs == [srv |-> srv, deps |-> deps, idle |-> (caller = "idle"), up |-> up, silent |-> silent,
+Obs == [srv |-> srv, deps |-> deps, idle |-> AllIdle, up |-> up, silent |-> silent,
         subq |-> Len(subCh), unsubq |-> Len(unsubCh), run |-> run, lock |-> lock]
 
 Log(rec) == hist' = Append(hist, [e |-> rec, obs |-> Obs'])
@@ -43,7 +44,7 @@ Int(name) == Log([a |-> "int", name |-> name])
 SendRes == IF up /\ ~silent THEN "ok" ELSE IF up \/ run' = "sendSelect" THEN "lost" ELSE "err"
 
 IntEnabled ==
-  ENABLED (CallLock \/ CallEnqueue \/ CallUnlock \/ Backoff \/ ResubLock \/ SenderTakeSub
+  ENABLED ((\E i \in Ap : ApplierNext(i)) \/ Backoff \/ ResubLock \/ SenderTakeSub
            \/ SenderTakeUnsub \/ SenderStop \/ SenderDefault \/ SenderResolve \/ WaitRecv \/ RecvFail)
 EnvMay == Eager => ~IntEnabled
 
@@ -59,9 +60,11 @@ GenNext ==
   /\ ~finished
   /\ \/ \E s \in Svcs, k \in {"sub", "unsub"} :
           EnvMay /\ CallStart(s, k) /\ Log([a |-> "call", kind |-> k, s |-> s])
-     \/ CallLock /\ Int("CallLock")
-     \/ CallEnqueue /\ Int("CallEnqueue")
-     \/ CallUnlock /\ Int("CallUnlock")
+     \/ \E A, R \in SUBSET Svcs : EnvMay /\ DepMsg(A, R) /\ Log([a |-> "dep", added |-> A, removed |-> R])
+     \/ \E i \in Ap : ApplyNext(i) /\ Int("ApplyNext")
+     \/ \E i \in Ap : CallLock(i) /\ Int("CallLock")
+     \/ \E i \in Ap : CallEnqueue(i) /\ Int("CallEnqueue")
+     \/ \E i \in Ap : CallUnlock(i) /\ Int("CallUnlock")
      \/ EnvMay /\ NewStreamOK /\ Log([a |-> "nsOK"])
      \/ EnvMay /\ NewStreamFail /\ Log([a |-> "nsFail"])
      \/ Backoff /\ Int("Backoff")
@@ -88,6 +91,9 @@ GenView == vars
 TrapDeadlock ==
   (~ENABLED ProxyNext /\ ~Quiescent) =>
      PrintT("@@CEX " \o ToJson([kind |-> "deadlock", hist |-> hist]))
+TrapSetDiffers ==
+  (AllIdle /\ subscribed # deps) =>
+     PrintT("@@CEX " \o ToJson([kind |-> "setdiffers", hist |-> hist]))
 TrapOutOfSync ==
   (Quiescent /\ srv # deps) =>
      PrintT("@@CEX " \o ToJson([kind |-> "outofsync", hist |-> hist]))
